@@ -2,8 +2,6 @@
 import os
 import re
 
-import vcheck
-
 ASSUMPTIONS = [
     "values are compared with Go's == on interface{}; the model uses natural numbers (the harness stores small ints)",
     "'$'-prefixed topics are not special in the property's relation nor in tree.go (DESIGN.md, C04 scope note)",
@@ -28,7 +26,7 @@ def run(ck):
     for l in ex:
         if l.startswith("direct ") and " FAIL " in l:
             m = re.search(r"filter=(\S+) name=(\S+)", l)
-            ck.fail_input("single", l, ["pair %s %s" % (m.group(1), m.group(2)), l] if m else [l])
+            ck.fail_input(l.split()[1], l, ["pair %s %s" % (m.group(1), m.group(2)), l] if m else [l])
             witnessed = True
     tie_only = []
     for l in lines:
@@ -47,14 +45,7 @@ def run(ck):
         elif l.startswith("diff "):
             tie_only.append(l)
     # topic.Parse / ContainsWildcards (Props/C04_parse.v, model Topic/Parse.v)
-    rc, out = vcheck.sh("timeout 1200 coqc -Q . GM -o %s Props/C04_parse.v" % os.path.join(ck.work, "C04_parse.vo"), cwd=vcheck.COQ)
-    pnames = re.findall(r"^\s*Theorem\s+(\w+)", open(os.path.join(vcheck.COQ, "Props", "C04_parse.v")).read(), re.M)
-    closed = out.count("Closed under the global context") if rc == 0 else 0
-    ck.theorems += pnames
-    ck.obligations += len(pnames)
-    ck.discharged += closed
-    if rc != 0 or closed != len(pnames) or re.search(r"^Axioms:", out, re.M):
-        ck.broken.append("Props/C04_parse.v: %d of %d theorems closed under the global context: %s" % (closed, len(pnames), out.strip()[-300:]))
+    # (its theorems are compiled and counted by vcheck together with Props/C04.v: Props/C04_*.v)
     ppath, _ = ck.harness("parse", extra=extra)
     for l in ck.model("topic", "parse", ppath):
         if l.startswith("propfail parse"):
